@@ -29,6 +29,7 @@ func TestVerifC37(t *testing.T) {
 		conns := uint(tp.Range(1, 4))
 		nClients := tp.Range(1, 7)
 		nFreeze := tp.Range(0, 3)
+		nCtl := tp.Range(1, 2)
 		type op struct {
 			kind   int // 0 save 1 load 2 stat 3 remove
 			typ    backend.FileType
@@ -49,6 +50,7 @@ func TestVerifC37(t *testing.T) {
 		r.Set("connections", conns)
 		r.Set("clients", nClients)
 		r.Set("freezes", nFreeze)
+		r.Set("freezers", nCtl)
 		r.Set("plans", fmt.Sprint(plans))
 		simrt.Run(r.T, s, 60*time.Second, func() {
 			store := simbe.NewStore(s)
@@ -130,8 +132,11 @@ func TestVerifC37(t *testing.T) {
 					}
 				})
 			}
-			if nFreeze > 0 {
-				s.Go("ctl", nil, func() {
+			// one or two controllers freeze and unfreeze; with two, the freeze periods queue up behind each other
+			frozenBy := 0
+			for ctl := 0; ctl < nCtl && nFreeze > 0; ctl++ {
+				ctl := ctl
+				s.Go(fmt.Sprintf("ctl%d", ctl), nil, func() {
 					for i := 0; i < nFreeze; i++ {
 						simrt.Park("ctl", "before-freeze", nil)
 						fb.Freeze()
@@ -139,14 +144,16 @@ func TestVerifC37(t *testing.T) {
 						// store by the next quiescence; only then do we call the backend frozen
 						simrt.Park("ctl", "frozen", nil)
 						mu.Lock()
-						frozen = true
+						frozenBy++
+						frozen = frozenBy > 0
 						mu.Unlock()
 						n := 1 + i
 						for j := 0; j < n; j++ {
 							simrt.Park("ctl", "hold", nil)
 						}
 						mu.Lock()
-						frozen = false
+						frozenBy--
+						frozen = frozenBy > 0
 						mu.Unlock()
 						fb.Unfreeze()
 					}
